@@ -13,3 +13,7 @@ open Cst.C12
 #print axioms Cst.leaves_text
 #print axioms Cst.walk_all_mat
 #print axioms Cst.chunks_tree
+#print axioms Cst.cut_spec_conv
+#print axioms Cst.chunks_tree_eq
+#print axioms Cst.chunks_tree_conv
+#print axioms Cst.chunks_tree_panics
